@@ -130,3 +130,6 @@ def r19_3(ctx):
     r09_1(ctx)
     r10_3(ctx)
     r11_1(ctx)
+    from .c09 import r09_8, r09_11
+    r09_8(ctx)     # per-stage parameter values are independent (what stage.value(p) arguments address)
+    r09_11(ctx)    # a value for a concatenation of symbols is split by their sizes
